@@ -16,6 +16,7 @@ import (
 	"github.com/hashicorp/hcl-lang/reference"
 	"github.com/hashicorp/hcl-lang/schema"
 	"github.com/hashicorp/hcl/v2"
+	"github.com/hashicorp/hcl/v2/hclsyntax"
 	"github.com/zclconf/go-cty/cty"
 	"github.com/zclconf/go-cty/cty/convert"
 )
@@ -564,6 +565,24 @@ func collectedWorldOracle(run *Run, n int) {
 			run.Res.Evaluations++
 			if res.Panic != "" || res.Err != nil {
 				continue
+			}
+			// block-local names: every reported declaration lies in the top-level block the reference is written in
+			if root, isRoot := lo.Addr[0].(lang.RootStep); isRoot && (root.Name == "self" || root.Name == "count" || root.Name == "each") {
+				if body, ok := sc.Main.Ctx.Files[sc.File].Body.(*hclsyntax.Body); ok && lo.Range.Filename == sc.File {
+					for _, blk := range body.Blocks {
+						if !blk.Range().ContainsPos(lo.Range.Start) {
+							continue
+						}
+						for _, rt := range res.Val.(decoder.ReferenceTargets) {
+							run.Count("block_local_definitions_checked")
+							if rt.OriginRange == lo.Range && (rt.Range.Filename != sc.File || rt.Range.Start.Byte < blk.Range().Start.Byte || rt.Range.End.Byte > blk.Range().End.Byte) {
+								run.Violate(Violation{Key: "C11/block-local-name-resolves-outside-its-block", Rule: "block-local names (count.index, each.*, self.*) resolve only to the enclosing block's declaration and never across blocks",
+									Func: "Decoder.ReferenceTargetsForOriginAtPos", Detail: fmt.Sprintf("%s written at %v resolves to %v", lo.Addr.String(), lo.Range, rt.Range),
+									Replay: map[string]interface{}{"kind": "collected", "seed": run.Res.Seed, "collected_world": i, "src": string(sc.Src), "origin": lo.Addr.String()}})
+							}
+						}
+					}
+				}
 			}
 			for _, rt := range res.Val.(decoder.ReferenceTargets) {
 				if rt.OriginRange != lo.Range || rt.Range.Filename != sc.File || rt.Range.Start.Byte >= rt.Range.End.Byte || rt.Range.End.Byte > len(sc.Src) {
